@@ -48,7 +48,7 @@ def run(chk: harness.Check):
         "Number(value·factor) and Range{start·factor, end·factor}; scale_to_servings passes target/base with base = first declared servings or 1; "
         "(D4) every field of the scaled recipe and of each scaled component other than the quantity is a move of the same-named input field, "
         "ScaledData.{ingredients,cookware,timers} are the outcome halves of the unzip over the same-named vectors, the cookware chain contains no "
-        "call to Quantity::fit; (D5) the servings list is not reordered; (D6) the outcome paired with a scaled component is the one its own Scale::scale returned, passed through the post-scale fit untouched. No number is computed.")
+        "call to Quantity::fit; (D5) the servings list is not reordered; (D6) the outcome paired with a scaled component is the one its own Scale::scale returned, passed through the post-scale fit untouched; (D7) no default_scale reaches Scale::scale or linear_scale. No number is computed.")
     chk.trusted = ["rustc MIR", "Iterator::map/unzip preserve order and length"]
     chk.analysed = {"facts": th}
     d1_linear(chk, F)
@@ -56,6 +56,7 @@ def run(chk: harness.Check):
     d3_formula(chk, F)
     d4_lineage(chk, F)
     d6_outcome_origin(chk, F)
+    d7_default_no_multiply(chk, F)
     c13.d3_servings(chk, F)
     # scaling fits the scaled quantity (scale.rs → Quantity::fit → fit_fraction): "multiplied by f as a physical amount
     # (whatever unit it is then fitted to)" needs both ends of a re-expressed range converted to the new unit
@@ -232,6 +233,33 @@ def _norm_mul(t):
         a, b = sorted([m.group(1), m.group(2)])
         return f"({a} Mul {b})"
     return t
+
+
+def d7_default_no_multiply(chk, F):
+    """'Default scaling returns the written values verbatim': nothing that a `default_scale` (of the recipe, a component, a quantity or a
+    value) runs — resolved calls and closures — is a `Scale::scale` or `linear_scale`: the multiplying path rebuilds every number as a plain
+    float, so a written `1/2` would come back as `0.5` even with factor 1."""
+    R = "C08.D7-default-verbatim"
+    roots = [k for k, g in F.funcs.items() if g.crate == "cooklang" and not g.is_closure() and
+             (k.endswith("scale::Scale>::default_scale") or k == S + "default_scale")]
+    chk.floor(R, "default_scale implementations", len(roots), 5, "src/scale.rs")
+    for root in sorted(roots):
+        seen, work, via = set(), [g.key for g in F.region_funcs(root)], {}
+        while work:
+            k = work.pop()
+            if k in seen or k not in F.funcs or F.funcs[k].crate != "cooklang":
+                continue
+            seen.add(k)
+            for kind, tgt, _, _ in F.call_edges(F.funcs[k]):
+                if kind != "cha" and tgt not in seen:
+                    via.setdefault(tgt, k)
+                    work.append(tgt)
+        bad = sorted(k for k in seen if k.endswith(("scale::Scale>::scale", "scale::linear_scale")) or k == S + "scale")
+        g = F.funcs[root]
+        short = root.split(" as scale::Scale>")[0].split("::<", 1)[-1] if " as scale::Scale>" in root else "Recipe"
+        chk.expect(not bad, R, f"{short}::default_scale", f"{g.file}:{g.line}",
+                   f"default scaling of {short} runs {', '.join(b.rsplit('::', 2)[-2] + '::' + b.rsplit('::', 1)[-1] for b in bad[:3])}: written fractions and mixed numbers "
+                   "are rebuilt as plain floats instead of being returned verbatim", sample=f"{g.file}:{g.line}: {short}::default_scale reaches no multiplying path ({len(seen)} functions)")
 
 
 def d6_outcome_origin(chk, F):
